@@ -584,6 +584,13 @@ func (e *Env) call(ce *CE) (CVal, error) {
 	S := types.Typ[types.String]
 	I := types.Typ[types.Int]
 	switch name {
+	case "pre":
+		// in an "after call" rule: the value of the expression in the state just before the call
+		if fg.preCallState == nil {
+			return e.eval(args[0])
+		}
+		pe := &Env{fg: fg, vars: e.vars, st: fg.preCallState, old: e.old}
+		return pe.eval(args[0])
 	case "old":
 		if e.old == nil {
 			return e.eval(args[0])
